@@ -247,7 +247,7 @@ fn main() {
     // trailing blanks — and still different names)
     let names = [
         "a", "b", "x", "", " ", "player.score", "$total", "a+b", "日本", "\"q\"", "math::pi", "0", "true", "f", "very_long_name_0123456789", "x1", "x01", "x001", "X1", "é",
-        "e\u{301}", "a ", "A", "item10", "item010", "_", "variables", "without_builtin_functions",
+        "e\u{301}", "a ", "A", "item10", "item010", "_", "variables", "without_builtin_functions", "::scale", "scale", "a::", "::", "a::b::c", "a::b", "b::c", "::a::b",
     ];
     let mut ctx_ok = 0u64;
     for i in 0..n_ctx {
@@ -275,6 +275,21 @@ fn main() {
         let _ = c.set_builtin_functions_disabled(off);
         if r.below(3) == 0 {
             let _ = c.set_function("f".into(), Function::new(|v: &Value| Ok(v.clone())));
+        }
+        // user functions named like builtins (none of them survives serialization, so the builtin is back afterwards)
+        let shadowed: Vec<&str> = ["min", "len", "str::from", "math::abs", "if"].iter().copied().filter(|_| r.below(4) == 0).collect();
+        for n in &shadowed {
+            let _ = c.set_function(n.to_string(), Function::new(|_| Ok(Value::String("user function".into()))));
+        }
+        // values that are equal for `==` and still different values, side by side in one context
+        if r.below(4) == 0 {
+            let _ = c.set_value("t_pos".into(), Value::Tuple(vec![Value::Float(0.0), Value::Int(1)]));
+            let _ = c.set_value("t_neg".into(), Value::Tuple(vec![Value::Float(-0.0), Value::Int(1)]));
+            let _ = c.set_value("z_pos".into(), Value::Float(0.0));
+            let _ = c.set_value("z_neg".into(), Value::Float(-0.0));
+            let _ = c.set_value("t_nested_neg".into(), Value::Tuple(vec![Value::Tuple(vec![Value::Float(-0.0)]), Value::Tuple(vec![Value::Float(0.0)])]));
+            let _ = c.set_value("s_a".into(), Value::String("a".into()));
+            let _ = c.set_value("s_a2".into(), Value::String("a".into()));
         }
         let pretty = i % 2 == 1;
         let text = if pretty { ron::ser::to_string_pretty(&c, ron::ser::PrettyConfig::default()) } else { ron::ser::to_string(&c) };
@@ -323,6 +338,17 @@ fn main() {
         let probe = back.call_function("f", &Value::Int(1));
         if !matches!(probe, Err(EvalexprError::FunctionIdentifierNotFound(_))) {
             report(format!("context/function-survived: serialized {} : f(1) = {:?}", text, probe));
+            continue;
+        }
+        let mut survived = None;
+        for n in ["min", "len", "str::from", "math::abs", "if"] {
+            let p = back.call_function(n, &Value::Tuple(vec![Value::Int(1), Value::Int(2)]));
+            if !matches!(p, Err(EvalexprError::FunctionIdentifierNotFound(_))) {
+                survived = Some(format!("{}((1, 2)) = {:?}", n, p));
+            }
+        }
+        if let Some(sv) = survived {
+            report(format!("context/function-survived: serialized {} : the context resolves {} (user functions named like builtins were {:?})", text, sv, shadowed));
             continue;
         }
         // the round-tripped context behaves like the original for evaluation
